@@ -14,7 +14,7 @@ through the block-level transaction, so same-block duplicates are seen);
 execute_chargeable_transaction records the id on every success path; store_mint_tx rejects an already
 recorded mint id (replace(..).is_some() => error) and execute_mint always reaches it;
 ProcessedTransactions is written in the executor only at those two sites; regenesis keeps the
-recorded ids (ProcessedTransactions is exported and imported).
+recorded ids (ProcessedTransactions is exported and imported). (5) the ProcessedTransactions lookup of check_tx_is_not_duplicate is never defaulted and its error edge is an error exit.
 """
 NOT_DECIDED = """Hash collisions; value equality of ids."""
 
